@@ -24,9 +24,9 @@ static bool localInv(const PositionBase& s, int w) {
     return ok;
 }
 
-alignas(64) static unsigned char posmem[sizeof(Position)];
+static RawBox<Position> posBox;
 static Position& rawPos(const PositionBase& b) {
-    Position& pos = *reinterpret_cast<Position*>(posmem);
+    Position& pos = posBox.obj;
     (PositionBase&)pos = b;
     pos.nnEval = nullptr;            // evaluator not connected (C07 covers the evaluator bookkeeping)
     return pos;
@@ -101,15 +101,15 @@ static bool sameState(const PositionBase& a, const PositionBase& b) {
     return same;
 }
 
-// A board with up to NSPARSE men of any kind on any (distinct) squares, the rest empty.  Hash/serialisation code treats
-// squares independently, so a handful of symbolic (square, piece) pairs exercises every per-square contribution.
-#ifndef NSPARSE
-#define NSPARSE 6
-#endif
+// A board with men of any kind (any piece code 0..12, symbolic) on the four squares 4g..4g+3 of group g = verif_param() (0..15),
+// the rest empty.  The hash / serialisation loops treat squares independently; with the squares concrete only four of the 64
+// table look-ups per loop are symbolic (64 symbolic look-ups into the 13x64 key table gave a 28M-clause formula that no back
+// end finished), and the 16 groups together put every piece code on every square.
+#define NSPARSE 4
+static int ms[NSPARSE], mp[NSPARSE];      // the men of the last sparse board (square, piece code; code 0 = nothing there)
 static void sparseBoard(PositionBase& a) {
-    int ms[NSPARSE], mp[NSPARSE];
-    for (int k = 0; k < NSPARSE; k++) { ms[k] = nondet_int(); mp[k] = nondet_int(); ASSUME(ms[k] >= 0 && ms[k] < 64 && mp[k] >= 0 && mp[k] <= 12); }
-    for (int k = 0; k < NSPARSE; k++) for (int l = k + 1; l < NSPARSE; l++) ASSUME(ms[k] != ms[l]);
+    int g = (int)verif_param() & 15;
+    for (int k = 0; k < NSPARSE; k++) { ms[k] = 4 * g + k; mp[k] = nondet_int(); ASSUME(mp[k] >= 0 && mp[k] <= 12); }
     for (int i = 0; i < 64; i++) { int p = 0; for (int k = 0; k < NSPARSE; k++) if (ms[k] == i) p = mp[k]; a.squares[Square(i)] = p; }
 }
 
@@ -366,8 +366,11 @@ void h_scratchhash(void) {
     Position& pos = rawPos(a);
     U64 h = pos.computeZobristHash();                      // real
     verif_observe(h);
-    U64 want = 0x5fd230cc43568439ULL, pw = 0x5fd230cc43568439ULL; unsigned mid = 0;
-    for (int i = 0; i < 64; i++) { int p = a.squares[Square(i)]; want ^= Position::psHashKeys[p][Square(i)]; if (isPawn(p)) pw ^= Position::psHashKeys[p][Square(i)]; mid += (unsigned)MatId::materialId[p]; }
+    // oracle over the men only: an empty square contributes the EMPTY key, which must be zero (checked for all 64 squares)
+    U64 want = 0x5fd230cc43568439ULL, pw = 0x5fd230cc43568439ULL; unsigned mid = 0; bool emptyZero = true;
+    for (int i = 0; i < 64; i++) emptyZero = emptyZero && Position::psHashKeys[Piece::EMPTY][Square(i)] == 0;
+    CHECK(emptyZero, "the EMPTY piece-square keys are all zero");
+    for (int k = 0; k < NSPARSE; k++) { int p = mp[k]; want ^= Position::psHashKeys[p][Square(ms[k])]; if (isPawn(p)) pw ^= Position::psHashKeys[p][Square(ms[k])]; mid += (unsigned)MatId::materialId[p]; }
     if (a.whiteMove) want ^= Position::whiteHashKey;
     want ^= Position::castleHashKeys[a.castleMask];
     want ^= Position::epHashKeys[a.epSquare.asInt() >= 0 ? (a.epSquare.asInt() & 7) + 1 : 0];
@@ -404,8 +407,10 @@ void h_serialize(void) {
     CHECK(b.whiteMove == a.whiteMove && b.castleMask == a.castleMask && b.epSquare == a.epSquare && b.halfMoveClock == a.halfMoveClock && b.fullMoveCounter == a.fullMoveCounter, "flags and counters round-trip");
     // derived fields equal their from-scratch values
     U64 want = 0x5fd230cc43568439ULL, pw = 0x5fd230cc43568439ULL; unsigned mid = 0; U64 bb[13] = {0}, wbb = 0, bbb = 0; int wm = -::kV, bm = -::kV, wp = 0, bp = 0;
-    for (int i = 0; i < 64; i++) { int p = a.squares[Square(i)]; want ^= Position::psHashKeys[p][Square(i)]; if (isPawn(p)) pw ^= Position::psHashKeys[p][Square(i)];
-        mid += (unsigned)MatId::materialId[p]; bb[p] |= 1ULL << i; if (isW(p)) { wbb |= 1ULL << i; wm += ::pieceValue[p]; } if (isB(p)) { bbb |= 1ULL << i; bm += ::pieceValue[p]; }
+    for (int k = 0; k < NSPARSE; k++) { int p = mp[k]; int i = ms[k]; if (p == 0) continue;
+        want ^= Position::psHashKeys[p][Square(i)]; if (isPawn(p)) pw ^= Position::psHashKeys[p][Square(i)];
+        mid += (unsigned)MatId::materialId[p]; for (int q = 1; q < 13; q++) if (p == q) bb[q] |= 1ULL << i;
+        if (isW(p)) { wbb |= 1ULL << i; wm += ::pieceValue[p]; } if (isB(p)) { bbb |= 1ULL << i; bm += ::pieceValue[p]; }
         if (p == Piece::WPAWN) wp += ::pieceValue[p]; if (p == Piece::BPAWN) bp += ::pieceValue[p]; }
     if (a.whiteMove) want ^= Position::whiteHashKey;
     want ^= Position::castleHashKeys[a.castleMask] ^ Position::epHashKeys[a.epSquare.asInt() >= 0 ? (a.epSquare.asInt() & 7) + 1 : 0];
